@@ -156,7 +156,10 @@ class G:
         calls, flags = self.express_insert(cls, cols, rows)
         mode = "insert" if not flags[0] else ("ior" if flags[1] else "replace")
         spec = {"kind": "insert", "table": table, "cols": cols, "rows": rows, "mode": mode}
-        return {"kind": "b", "cls": cls, "start": ["into", table], "calls": calls, "spec": spec, "db": self.r.randrange(4)}
+        case = {"kind": "b", "cls": cls, "start": ["into", table], "calls": calls, "spec": spec, "db": self.r.randrange(4)}
+        if self.r.random() < 0.3:      # the table-factory spellings of the starter: t.insert(...) is then the first call
+            case["via"] = self.r.choice(["factory", "query_cls"])
+        return case
 
     def row_args(self, chunk):
         """one insert-like call's argument list for the rows in chunk"""
@@ -300,8 +303,11 @@ class G:
             lim = self.r.choice([0, 1, 2])
             calls.insert(self.r.randrange(len(calls) + 1), ["limit", lim])
             spec["limit"] = lim
-        return {"kind": "b", "cls": cls, "start": ["update", table], "calls": calls, "spec": spec, "db": self.r.randrange(4),
+        case = {"kind": "b", "cls": cls, "start": ["update", table], "calls": calls, "spec": spec, "db": self.r.randrange(4),
                 "_hazard": hazard}
+        if self.r.random() < 0.2:
+            case["via"] = self.r.choice(["factory", "query_cls"])
+        return case
 
     # ---- DELETE ----
     def delete(self):
